@@ -217,6 +217,11 @@ def Message.toMsg (m : Message) : Msg := fun k c => holds c k m
 (`setRequestModifier(nil)` installs the noop). -/
 def run (r : Result) (k : Kind) (msg : Msg) : Outcome := eval (msg k) (orNoop (r.side k))
 
+/-- One exchange through the active configuration: its request as the exchange is at request time
+(`m1`), its response as the exchange is at response time (`m2`: the URL, method, headers … may have
+been rewritten in between; the response side reads `res.Request.*` then). -/
+def xrun (r : Result) (m1 m2 : Message) : Outcome × Outcome := (run r .req m1.toMsg, run r .res m2.toMsg)
+
 /-- State of `martianhttp.Modifier`: the active pair (initially noop/noop). -/
 abbrev Active := Result
 def Active.init : Active := ⟨none, none⟩
